@@ -66,12 +66,22 @@ class BalancedMoveRule(BaseRule):
             #       remaining on the same side of the equation
             if self.has_add_siblings(node):
                 return None
+            # Both sides are divided by the constant: never by zero.
+            if node.value == 0:
+                return None
 
             return _TYPE_CONST_OF_MULTIPLY
 
         if isinstance(node.parent, AddExpression):
             if isinstance(node, ConstantExpression) or get_term_ex(node) is not None:
-                return _TYPE_ADDITION
+                # Only a top-level addend of its side can be subtracted from both
+                # sides: every node between it and the equation must be an addition
+                # (not a product, quotient, power, negation or subtrahend).
+                top = node.parent
+                while isinstance(top.parent, AddExpression):
+                    top = top.parent
+                if top.parent is root:
+                    return _TYPE_ADDITION
 
         return None
 
